@@ -13,6 +13,9 @@ def gen_op(rng, others_abs, others_rel, reads=True, allow_scale=True):
         ("split", [rng.choice([12, 24, 48]) for _ in range(rng.randint(1, 2))]),
         ("editAbs", 0, rng.choice([1, 2])), ("editAbs", 1, rng.randint(1, 127)), ("editRel", 0, rng.choice([1, 2])),
         ("editRel", 1, rng.randint(1, 127)), ("editRel", 2, rng.randrange(4)), ("editAbs", 2, rng.randrange(4)),
+        ("editAbsPeek", 1, rng.randint(1, 127)), ("editRelPeek", 0, rng.choice([1, 2])), ("editAbsPeek", 0, rng.choice([1, 2])),
+        ("editRelPeek", 2, rng.randrange(4)), ("editAbsFirst", 1, rng.randint(1, 127)), ("editRelFirst", 2, rng.randrange(4)),
+        ("editAbsFirst", 0, 1), ("editRelFirst", 1, rng.randint(1, 127)),
         ("overwriteAbs", rng.choice(others_abs)), ("overwriteRel", rng.choice(others_rel)),
         ("merge", [rng.choice(others_abs)]), ("concat", [rng.choice(others_rel)]),
         ("addAbs", pm(ON, 0, rng.randint(0, 100), note=rng.randint(60, 72), vel=rng.randint(1, 127))),
